@@ -112,7 +112,8 @@ def make_node(rule_name, element=None, child_names=(), content="__canonical__", 
     name = element if element is not None else (elements_of(rule_name) or (synthetic_name(rule_name),))[0]
     n = Node(name)
     if nested:
-        gp = Node("verifGrandParent")
+        # below a (foreign) grandparent, or - nested given as an element name - below a parent of the real vocabulary
+        gp = Node("verifGrandParent" if nested is True else nested)
         gp.add_child(Node("verifSibling"))
         gp.add_child(n)
     n.content = canonical_content(rule_name) if content == "__canonical__" else content
@@ -144,6 +145,53 @@ def long_lived_node(rule_name, element, kids):
 
 
 _LONG_LIVED_RULES = {}
+
+
+@functools.lru_cache(maxsize=None)
+def parents_allowing(element):
+    """Elements of the vocabulary whose rule declares `element` as a child."""
+    out = []
+    for p, rn in mrule.node_mappings.items():
+        try:
+            if rn in mrule.rules_dict and element in spec_of(rn).names:
+                out.append(p)
+        except Exception:
+            pass
+    return tuple(out)
+
+
+@functools.lru_cache(maxsize=None)
+def sequence_through(rule_name, child):
+    """A shortest child sequence of the rule's language that contains `child` (None if there is none)."""
+    m = machine_of(rule_name)
+    start = (0, False)
+    prev = {start: None}
+    queue = [start]
+    for st in queue:
+        s_, seen = st
+        if seen and m.out[s_] == relang.ACCEPT:
+            seq = []
+            while prev[st] is not None:
+                st, a = prev[st]
+                seq.append(a)
+            return tuple(reversed(seq))
+        for a in m.sigma:
+            if a == relang.FOREIGN:
+                continue
+            nx = (m.delta[s_][a], seen or a == child)
+            if nx not in prev:
+                prev[nx] = (st, a)
+                queue.append(nx)
+    return None
+
+
+def optional_attributes(rule_name):
+    """The declared attributes that are not required, each with a valid value."""
+    out = {}
+    for a, spec in mrule.rules_dict[rule_name][0].items():
+        if spec and spec[0] is not True:
+            out[a] = spec[1] if len(spec) > 1 else "v"
+    return out
 
 
 def long_lived_rule(rule_name):
